@@ -246,6 +246,13 @@ func genCase(t *rapid.T) *Case {
 		if len(c.focus) == 0 {
 			c.focus = []string{"y:0"}
 		}
+		for _, sj := range c.Subjects {
+			if strings.HasPrefix(sj.Kind, "array") && rapid.Bool().Draw(t, "farr") {
+				// the interplay of an element, a far index (storage switch) and length
+				c.focus = []string{rapid.SampledFrom([]string{`s:"0"`, `s:"1"`, `s:"2"`}).Draw(t, "fai"), `s:"5000"`, `s:"length"`}
+				break
+			}
+		}
 	}
 	nops := rapid.IntRange(1, 40).Draw(t, "nops")
 	for i := 0; i < nops; i++ {
